@@ -366,6 +366,10 @@ Qed.
 
 Lemma float_tiny_roundtrip neg : float_of_bytes (float_bytes (Fl neg 0 true)) = Fl neg 0 false.
 Proof. destruct neg; vm_compute; reflexivity. Qed.
+Lemma float_tiny_token neg :
+  classify (float_bytes (Fl neg 0 true)) = KDec /\ clean (float_bytes (Fl neg 0 true)) = true.
+Proof. destruct neg; split; vm_compute; reflexivity. Qed.
+
 
 Lemma float_re_dec neg mag : 0 <= mag ->
   classify (float_bytes (Fl neg mag false)) = KDec /\ clean (float_bytes (Fl neg mag false)) = true.
@@ -390,6 +394,18 @@ Proof.
     split.
     + rewrite classify_skip6 by assumption. rewrite R1, R2. reflexivity.
     + apply clean_intro; [discriminate|exact ND|apply starts_str_hd; lia].
+Qed.
+
+(* a well-formed Float: printed as a clean decimal token, read back to the same 8 places *)
+Lemma float_leaf f : wf_leaf (TFloat f) = true ->
+  classify (float_bytes f) = KDec /\ clean (float_bytes f) = true /\
+  float_of_bytes (float_bytes f) = Fl (fneg f) (fmag f) false.
+Proof.
+  destruct f as [neg mag tiny]. cbn [wf_leaf fmag ftiny fneg]. intros W. apply andb_true_iff in W as [W1 W2].
+  destruct tiny.
+  - cbn [negb orb] in W2. assert (mag = 0) by lia. subst mag.
+    destruct (float_tiny_token neg) as [C CL]. repeat split; [exact C|exact CL|apply float_tiny_roundtrip].
+  - destruct (float_re_dec neg mag ltac:(lia)) as [C CL]. repeat split; [exact C|exact CL|apply float_roundtrip; lia].
 Qed.
 
 (* ====================================================================== String *)
@@ -458,8 +474,7 @@ Proof.
   intros L W S. destruct t as [d|l|p|z|f|b|n|b]; try discriminate; cbn [leaf_bytes leaf_kind wf_leaf] in *.
   - rewrite <- !app_assoc. rewrite tokenize_str. apply emit_ok; [apply classify_string|discriminate].
   - rewrite tokenize_tok by (apply int_clean || exact S). apply emit_ok; [apply int_classify|discriminate].
-  - destruct f as [neg mag tiny]. cbn [fmag ftiny] in W. apply andb_true_iff in W as [W1 W2].
-    destruct tiny; [discriminate|]. destruct (float_re_dec neg mag ltac:(lia)) as [C CL].
+  - destruct (float_leaf f W) as (C & CL & _).
     rewrite tokenize_tok by assumption. apply emit_ok; [exact C|discriminate].
   - destruct b; (rewrite tokenize_tok by (reflexivity || exact S)); reflexivity.
   - destruct (prop_classify n W) as (C & CL & _).
@@ -469,13 +484,12 @@ Proof.
 Qed.
 
 (* 2. ... which the element reader turns back into the value *)
-Lemma leaf_read t : is_leaf t = true -> wf_leaf t = true -> leaf_of (leaf_kind t) (leaf_bytes t) = Ok t.
+Lemma leaf_read t : is_leaf t = true -> wf_leaf t = true -> leaf_of (leaf_kind t) (leaf_bytes t) = Ok (untiny t).
 Proof.
   intros L W. destruct t as [d|l|p|z|f|b|n|b]; try discriminate; cbn [leaf_bytes leaf_kind wf_leaf] in *.
   - apply string_read. exact W.
   - apply int_read. exact W.
-  - destruct f as [neg mag tiny]. cbn [fmag ftiny] in W. apply andb_true_iff in W as [W1 W2].
-    destruct tiny; [discriminate|]. cbn [leaf_of]. rewrite float_roundtrip by lia. reflexivity.
+  - destruct (float_leaf f W) as (_ & _ & R). cbn [leaf_of untiny]. rewrite R. reflexivity.
   - destruct b; reflexivity.
   - destruct (prop_classify n W) as (_ & _ & F). cbn [leaf_of]. rewrite F. reflexivity.
   - apply andb_true_iff in W as [W1 W2]. unfold kind_eqb in W1.
@@ -495,8 +509,7 @@ Lemma leaf_bytes_sep t : is_leaf t = true -> wf_leaf t = true -> leaf_bytes t <>
 Proof.
   intros L W. destruct t as [d|l|p|z|f|b|n|b]; try discriminate; cbn [leaf_bytes wf_leaf] in *; try discriminate.
   - pose proof (int_clean z) as C. unfold clean in C. destruct (int_bytes z); [discriminate|discriminate].
-  - destruct f as [neg mag tiny]. cbn [fmag ftiny] in W. apply andb_true_iff in W as [W1 W2].
-    destruct tiny; [discriminate|]. destruct (float_re_dec neg mag ltac:(lia)) as [_ C].
+  - destruct (float_leaf f W) as (_ & C & _).
     unfold clean in C. destruct (float_bytes _); discriminate.
   - destruct b; discriminate.
   - apply andb_true_iff in W as [_ C]. unfold clean in C. destruct b; discriminate.
